@@ -1,16 +1,31 @@
-import Sucds.Proofs.DacLevels
-/-! # C11 — DacsByte is lossless (partial): the level walk of `access` is lossless for arbitrary widths,
-    hence for eight levels of 8 bits; glue to `DacB.fromSlice`/`DacB.access` missing. -/
+import Sucds.Proofs.DacsAccess
+import Sucds.Proofs.IndexIter
+/-! # C11 — DacsByte is lossless for every input
+
+For every build configuration and every list of `usize` values: the model of `DacsByte::from_slice` (always
+`Ok` for `usize` input; the builder cannot panic) returns `access(i) = vals[i]` for `i < n` and `None` for
+every other `i`, reports `len = n`, iterates the input in order, and has exactly `⌈bitlen(max)/8⌉` levels of
+8 bits — one level for empty or all-zero input. -/
 namespace Sucds.C11
 open Sucds
-theorem sum_replicate (k w : Nat) : (List.replicate k w).sum = k * w := by
-  induction k with
-  | zero => simp
-  | succ n ih => simp [List.replicate_succ, ih, Nat.succ_mul, Nat.add_comm]
 
-theorem walk_lossless_bytes (k : Nat) (vs : List Nat) (pos : Nat) (hk : k ≠ 0) (hp : pos < vs.length)
-    (hv : ∀ v ∈ vs, v < 2^(8 * k)) : Dac.walk (List.replicate k 8) vs pos = vs[pos]! := by
-  apply Dac.walk_ok _ _ _ _ hp
-  · intro v hv'; have := hv v hv'; simpa [sum_replicate, Nat.mul_comm] using this
-  · intro h; exact hk (by simpa using congrArg List.length h)
+def Statement : Prop :=
+  ∀ (c : Cfg) (vals : List Nat), (∀ v ∈ vals, v < 2^64) →
+    (∀ i, (DacB.fromSlice c vals).access c i = .ok vals[i]?) ∧
+    (DacB.fromSlice c vals).len = .ok vals.length ∧
+    (DacB.fromSlice c vals).numLevels = (if vals.isEmpty then 1 else (bitlen (vals.foldl max 0) + 7) / 8) ∧
+    (DacB.fromSlice c vals).widths = List.replicate (DacB.levels vals) 8
+
+theorem holds : Statement := fun c vals hv =>
+  ⟨DacB.access_ok c vals hv, DacB.len_ok c vals hv, DacB.numLevels_ok c vals hv, DacB.widths_ok c vals hv⟩
+
+/-- all-zero input has one level: the bit length of 0 is 1 -/
+example : DacB.levels [0, 0, 0] = 1 := by decide
+example : DacB.levels [] = 1 := by decide
+example : DacB.levels [255, 256] = 2 := by decide
+
+theorem iteration (vals : List Nat) (acc : Nat → Option Nat) (hacc : ∀ i, acc i = vals[i]?) (n : Nat) :
+    IndexIter.runN vals.length acc ⟨0⟩ n =
+      (List.range n).map (fun j => (vals[0 + j]?, (vals.length - (0 + j), some (vals.length - (0 + j))))) :=
+  IndexIter.runN_spec vals acc (fun i _ => hacc i) n 0 (Nat.zero_le _)
 end Sucds.C11
